@@ -60,7 +60,7 @@ def main(tier):
     json.dump({'chunk': 20, 'recs': recs}, open(rf, 'w'))
     r = V.tlc(NT, os.path.join(V.SPEC, 'avoid', 'Nudge.cfg'), env={'NUDGERECS': rf}, timeout=3000, cont=True, mem='24g')
     ev.add_tlc('Nudge: %d scenes' % len(recs), r)
-    nontriv = sum(int(m.group(2)) for m in re.finditer(r'<<"STAT", "nudge", (\d+), (\d+)>>', r.out))
+    nontriv = sum(v[0] for v in V.stat(r.out, 'nudge'))
     for inv, st in V.violating_states(r):
         for (i, t) in st.get('bad', []):
             x = recs[i - 1]
